@@ -1554,22 +1554,24 @@ impl PeerConnection {
                 {
                     new_role = Some(true);
                 } else {
-                    for section in &desc.media_sections {
-                        for attr in &section.attributes {
-                            if attr.key == "setup"
-                                && let Some(val) = &attr.value
-                            {
-                                let is_client = match val.as_str() {
-                                    "active" => false,
-                                    "passive" => true,
-                                    "actpass" => false,
-                                    _ => true,
-                                };
-                                new_role = Some(is_client);
-                                break;
-                            }
-                        }
-                        if new_role.is_some() {
+                    // a=setup may be given per media section or once at session level
+                    // (RFC 4145 section 4); the first media-level value wins.
+                    let setup_attrs = desc
+                        .media_sections
+                        .iter()
+                        .flat_map(|section| section.attributes.iter())
+                        .chain(desc.session.attributes.iter());
+                    for attr in setup_attrs {
+                        if attr.key == "setup"
+                            && let Some(val) = &attr.value
+                        {
+                            let is_client = match val.as_str() {
+                                "active" => false,
+                                "passive" => true,
+                                "actpass" => false,
+                                _ => true,
+                            };
+                            new_role = Some(is_client);
                             break;
                         }
                     }
